@@ -83,7 +83,7 @@ def labels_of(r):
 def run(ctx):
     ctx.prove('LPVerif.Props.C02', 'LPVerif/Props/C02.lean')
     build = ctx.build()
-    n = 120 if ctx.quick else 2500
+    n = 200 if ctx.quick else 3000
     if ctx.broken:
         n *= 4
     cases = []
